@@ -124,6 +124,19 @@ fn check_arena(st: &mut Stats, line: &Value, idx: usize, sweep_every: u64, full_
             if ont.hpo(HpoTermId::from(id)).is_some() != ont.hpo(id).is_some() {
                 d.push(format!("hpo(HpoTermId {id}) and hpo({id}u32) disagree"));
             }
+            // ... and so does the fallible constructor of the term view
+            match hpo::HpoTerm::try_new(&ont, id) {
+                Ok(t) => {
+                    if !want || t.id().as_u32() != id || t.id().to_usize() != id as usize || Some(t.name()) != first_name.get(&id).map(|s| s.as_str()) {
+                        d.push(format!("HpoTerm::try_new({id}) = Ok(term {} {:?}), added terms are {:?}", t.id(), t.name(), present));
+                    }
+                }
+                Err(e) => {
+                    if want || !matches!(e, hpo::HpoError::DoesNotExist) {
+                        d.push(format!("HpoTerm::try_new({id}) = Err({e}), term added: {want}"));
+                    }
+                }
+            }
         }
         // the same terms through the text loader (hp.obo needs the two standard roots): names with ": " survive
         if variant == 1 && present.iter().all(|x| *x < TABLE) {
